@@ -5,6 +5,9 @@ package c01
 
 import (
 	"fmt"
+	goast "go/ast"
+	goparser "go/parser"
+	gotoken "go/token"
 	"sort"
 	"strings"
 	"testing"
@@ -69,9 +72,11 @@ func judge(ref, x progrun.Result) *vk.Verdict {
 func evalBatch(srcs []string) ([]*vk.Verdict, []progrun.Result, error) {
 	verdicts := make([]*vk.Verdict, len(srcs))
 	refs := make([]progrun.Result, len(srcs))
+	gotexts := make([]string, len(srcs))
 	var progs []progrun.Prog
 	for i, src := range srcs {
 		gosrc, v := compileX(src)
+		gotexts[i] = gosrc
 		progs = append(progs, progrun.Prog{Name: fmt.Sprintf("r%04d", i), Files: map[string]string{"main.go": src}})
 		if v != nil {
 			verdicts[i] = v
@@ -92,7 +97,7 @@ func evalBatch(srcs []string) ([]*vk.Verdict, []progrun.Result, error) {
 			}
 			continue
 		}
-		verdicts[i] = judge(ref, res[fmt.Sprintf("x%04d", i)])
+		verdicts[i] = refineOrder(judge(ref, res[fmt.Sprintf("x%04d", i)]), srcs[i], gotexts[i])
 	}
 	return verdicts, refs, nil
 }
@@ -104,6 +109,41 @@ var oracle = vk.Register("prog", func(c Case) *vk.Verdict {
 	}
 	return vs[0]
 })
+
+// varOrder lists the package-level variable names of a Go file in declaration order.
+func varOrder(src string) []string {
+	f, err := goparser.ParseFile(gotoken.NewFileSet(), "x.go", src, goparser.SkipObjectResolution)
+	if err != nil {
+		return nil
+	}
+	var out []string
+	for _, d := range f.Decls {
+		if gd, ok := d.(*goast.GenDecl); ok && gd.Tok == gotoken.VAR {
+			for _, sp := range gd.Specs {
+				for _, n := range sp.(*goast.ValueSpec).Names {
+					if n.Name != "_" {
+						out = append(out, n.Name)
+					}
+				}
+			}
+		}
+	}
+	return out
+}
+
+// refineOrder names one known root cause: the compiler emits package-level variables in the
+// order in which they are first referenced, not in declaration order, which changes the order in
+// which Go runs their initialisers. It applies only when the emitted order really differs.
+func refineOrder(v *vk.Verdict, src, gotext string) *vk.Verdict {
+	if v == nil || (v.Class != "stdout-differs" && v.Class != "panic-differs" && v.Class != "exit-differs") {
+		return v
+	}
+	a, b := varOrder(src), varOrder(gotext)
+	if len(a) == len(b) && strings.Join(a, ",") != strings.Join(b, ",") {
+		return &vk.Verdict{Class: "package-var-emitted-out-of-order", Detail: fmt.Sprintf("declared %v, emitted %v; %s", a, b, v.Detail)}
+	}
+	return v
+}
 
 // reduce shrinks a failing program: units (declarations and main statements) are removed while
 // the program still builds with Go and fails with the same verdict class.
